@@ -349,6 +349,14 @@ class Executor:
                           f"after {n} other subscriptions, a field of type G[int] (class made earlier) given a G[int] instance: new instance {k0} {short(r0, 80)}, "
                           f"instance made earlier {k0b} {short(r0b, 80)}; isinstance(earlier, G[int]) = {isinstance(before, G[int])}")
             return
+        # parameters of every documented shape can be used, and give the same class every time
+        for (nm, mk) in (('Callable[[int], str]', lambda: t.Callable[[int], str]), ("Literal['ab', 1]", lambda: t.Literal['ab', 1]),
+                         ('Dict[str, List[int]]', lambda: t.Dict[str, t.List[int]]), ('Tuple[()]', lambda: t.Tuple[()])):
+            (k1, c1) = outcome(lambda: G[mk()])
+            (k2, c2) = outcome(lambda: G[mk()])
+            if k1 != 'ok' or k2 != 'ok' or c1 is not c2:
+                self.ctx.fail('history-independent', 'generic-subscription-parameter-kinds', f"G[{nm}] twice: {k1} {short(c1, 80)}, {k2} {short(c2, 80)}; same class: {c1 is c2}")
+                return
         # the order of union members is part of the parameter: G[Union[int, float]] and G[Union[float, int]] are different types
         for (first, second) in (((int, float), (float, int)), ((float, int), (int, float))):
             if n % 2 == (0 if first[0] is int else 1):
